@@ -241,8 +241,8 @@ func init() {
 	}, propMeta{Technique: "def-use rule on the binder's parameter over go/ssa + comparator shape check + dominance of the sort over every return of the canonicaliser", LevelText: "all callers of the canonicaliser are enumerated; each use of the raw parameter is decided.", LevelNote: "canonicaliser resolved by role: func([]*T) []*T that partitions and sorts", DesignRef: "4 ORD-canon; 5 C14"})
 
 	claim("C15", PropertySpec{
-		Engines: []EngineSpec{rules("PAIR", "PAIR-snap"), rules("REG", "REG-rounds"), rules("ORD", "ORD-agree", "ORD-canon")},
-		Clause: "Argument types saved before a method body is analysed are restored on every exit (must-pass-through from the snapshot call to the restore call), the round protocol is consistent (every round name compared is produced; diagnostics are recorded in the last round), and the binder's two canonical orders agree: call-site keywords are sorted by the stored key text, the same text the parameter names are sorted by, and no return of the canonicaliser by-passes the sort (otherwise an argument is matched with the wrong parameter or never propagated).",
+		Engines: []EngineSpec{rules("PAIR", "PAIR-snap"), rules("REG", "REG-rounds"), rules("ORD", "ORD-agree", "ORD-canon", "ORD-mark")},
+		Clause: "In the function that propagates call-site argument types, every arm that writes the argument into the parameter table has marked it as inferred from a call first (ORD-mark: the mark is what makes the next call widen the parameter instead of being checked against the first call's type; an unmarked arm makes the result depend on which call comes first). Argument types saved before a method body is analysed are restored on every exit (must-pass-through from the snapshot call to the restore call), the round protocol is consistent (every round name compared is produced; diagnostics are recorded in the last round), and the binder's two canonical orders agree: call-site keywords are sorted by the stored key text, the same text the parameter names are sorted by, and no return of the canonicaliser by-passes the sort (otherwise an argument is matched with the wrong parameter or never propagated).",
 		NotCovered: "the propagation rules themselves",
 	}, propMeta{Technique: "must-pass-through over the SSA CFG + agreement of string constants + agreement of the two canonical orders (accessor returns the stored key; sort dominates every return)", LevelText: "all snapshot call sites and all round comparisons are enumerated and decided.", LevelNote: "snapshot/restore functions resolved by role (writer/reader of the package-level map[FrameKey]T)", DesignRef: "4 PAIR, REG-rounds; 5 C15"})
 
@@ -253,10 +253,10 @@ func init() {
 	}, propMeta{Technique: "typestate-style flag pairing over go/ssa + call-graph check of pointer provenance + whole-value-use analysis of inheritance edges + visited-set key type rule", LevelText: "all functions with a *Context parameter and all their call sites are enumerated and decided.", LevelNote: "trusts the VTA call graph for callers", DesignRef: "4 PAIR; 5 C16"})
 
 	claim("C17", PropertySpec{
-		Engines: []EngineSpec{and(rules("PAIR", "PAIR"), funcs("PAIR", "(*Do)")), and(rules("REG", "REG-type"), funcs("REG", "eval"))},
-		Clause: "Block scope is restored on every exit (the restore closure of the block-scope preparation is deferred/called/returned on every path) and every block-parameter placeholder kind is referenced by the resolvers.",
+		Engines: []EngineSpec{and(rules("PAIR", "PAIR"), funcs("PAIR", "(*Do)")), and(rules("REG", "REG-type"), funcs("REG", "eval")), rules("RS", "RS-handover")},
+		Clause: "The block evaluator is entered with the receiver in hand: where the method evaluator dispatches the block construct with a token made on the spot, the parser's last-evaluated slot — from which the block evaluator takes the receiver that block parameters are resolved against — is published right before the dispatch, with nothing in between that can write it (RS-handover; the arguments of the call have overwritten it since the receiver was evaluated). Block scope is restored on every exit (the restore closure of the block-scope preparation is deferred/called/returned on every path) and every block-parameter placeholder kind is referenced by the resolvers.",
 		NotCovered: "the types computed for block parameters",
-	}, propMeta{Technique: "must-pass-through over the SSA CFG + kind-constant exhaustiveness", LevelText: "all acquire sites in the block evaluator are enumerated and decided.", LevelNote: "error-return paths of the acquire itself are exempt", DesignRef: "4 PAIR; 5 C17"})
+	}, propMeta{Technique: "must-pass-through over the SSA CFG + kind-constant exhaustiveness + dominance / may-write analysis of the parser's value slot before synthesized dispatches (registry keys resolved to evaluator types, slot readers and writers over the call graph)", LevelText: "all acquire sites in the block evaluator are enumerated and decided.", LevelNote: "error-return paths of the acquire itself are exempt", DesignRef: "4 PAIR; 5 C17"})
 
 	claim("C18", PropertySpec{
 		Engines: []EngineSpec{rules("ORD", "ORD-load", "ORD-prov", "ORD-own"), rules("ED", "ED-1"), all("GEN"), rules("RS", "RS-def")},
